@@ -2,6 +2,7 @@
 
 from __future__ import annotations
 
+import calendar
 import os
 import time
 
@@ -36,6 +37,18 @@ DELETABLE = ("ops",)
 ASPECTS = frozenset({"writes", "vquery"})
 
 ZONES = {"UTC0": 0, "<+0530>-5:30": 19800, "<-08>8": -28800, "<+14>-14": 50400, "<-12>12": -43200, "<+0545>-5:45": 20700, "<+01>-1": 3600}
+
+
+# zones with daylight saving rules: (TZ, epoch, offset in force at that epoch) - worked out by hand from the rules in the TZ string
+DST_POINTS = (
+    ("EST5EDT,M3.2.0,M11.1.0", 1_720_000_000, -14400),   # 3 Jul 2024: New York on daylight time
+    ("EST5EDT,M3.2.0,M11.1.0", 1_700_000_000, -18000),   # 14 Nov 2023: standard time
+    ("CET-1CEST,M3.5.0,M10.5.0/3", 1_720_000_000, 7200),  # central Europe, summer
+    ("CET-1CEST,M3.5.0,M10.5.0/3", 1_705_000_000, 3600),  # 11 Jan 2024, winter
+    ("AEST-10AEDT,M10.1.0,M4.1.0/3", 1_705_000_000, 39600),  # Sydney: January is summer
+    ("AEST-10AEDT,M10.1.0,M4.1.0/3", 1_720_000_000, 36000),
+    ("<+1030>-10:30<+11>-11,M10.1.0,M4.1.0", 1_705_000_000, 39600),  # Lord Howe style half-hour shift
+)
 
 
 def budgets(tier: str) -> dict:
@@ -112,6 +125,8 @@ def strategy(tier: str):
 
 
 def enumerate_cases(tier: str):
+    # one event of every kind under every environment dimension (transport kind, logging, warnings, a bystander gateway, registry file, ...)
+    yield from drive.env_sweep_cases()
     # every value type around and beyond the per-version tables: stored from a file, stored by a set, never stored; then requested
     types = list(range(0, 60)) + [99, 200, 255, 2**31]
     for version in (None, "1.4", "1.5", "2.0", "2.1", "2.2"):
@@ -149,6 +164,11 @@ def enumerate_cases(tier: str):
         ops = [["session"]] + [["rx", l] for l in react] + [["session"]] + [["rx", l] for l in react] + [["session"], ["session"]] + [["rx", l] for l in react]
         for mode in ("fresh", "persistent"):
             yield {"version": version, "metric": True, "tz": "UTC0", "epoch": 1_700_000_000, "registry": idle_reg, "ops": ops, "listen_mode": mode}
+    # zones that observe daylight saving, asked in their summer and in their winter: the reply is the controller's local time
+    for tz, epoch, offset in DST_POINTS:
+        for version in (None, "1.4", "2.0", "2.2"):
+            yield {"version": version, "metric": True, "tz": tz, "epoch": epoch, "offset": offset, "registry": idle_reg, "listen_mode": "fresh",
+                   "ops": [["rx", "1;255;3;0;1;\n"], ["rx", "0;255;3;0;1;\n"], ["rx", "1;255;3;1;1;0\n"], ["rx", "0;255;3;0;2;2.1.0\n"], ["rx", "1;255;3;0;1;\n"]]}
     # the registry file cannot be written (full or read-only disk): reactions do not depend on it
     for version in (None, "1.5", "2.2"):
         yield {"version": version, "metric": False, "tz": "UTC0", "epoch": 1_700_000_000, "registry": idle_reg, "ops": [["rx", l] for l in react] * 2, "listen_mode": "persistent", "persistence_file": "unwritable"}
@@ -186,8 +206,10 @@ class _ClockShim:
 
 
 def run_case(case: dict) -> Outcome:
-    offset = ZONES[case["tz"]]
+    if case.get("kind") == "envsweep":
+        return drive.run_env_case(case, ASPECTS)
     epoch = case["epoch"]
+    offset = case["offset"] if "offset" in case else ZONES[case["tz"]]
     saved_tz = os.environ.get("TZ")
     os.environ["TZ"] = case["tz"]
     time.tzset()
@@ -205,7 +227,8 @@ def run_case(case: dict) -> Outcome:
         hi = int(time.time()) + 1
         if value == epoch + offset:
             return None
-        if window["lo"] + offset <= value <= hi + offset:
+        now_offset = offset if "offset" not in case else calendar.timegm(time.localtime(hi)) - hi  # (zones with daylight saving: the offset now is not the offset at `epoch`)
+        if window["lo"] + now_offset <= value <= hi + now_offset:
             return None
         return (
             f"time reply {value}; controller local time is {epoch + offset} (epoch {epoch}, zone {case['tz']} = UTC{offset:+d}s) "
